@@ -98,7 +98,26 @@ def _transport(ctx, live, counter, server_mode=False):
         t._channels.put(cid, ch)
     t._log = lambda *a, **k: None
     t.get_exception = lambda: None
+    # lock discipline: every allocation and every registration made from here on records whether Transport.lock was held
+    t.lock_held_at = []
+    real_next = T.Transport._next_channel
+
+    def next_channel():
+        t.lock_held_at.append(("allocate", t.lock.locked()))
+        return real_next(t)
+    t._next_channel = next_channel
+    real_put = t._channels.put
+
+    def put(k, v):
+        t.lock_held_at.append(("register", t.lock.locked()))
+        return real_put(k, v)
+    t._channels.put = put
     return t
+
+
+def _lock_discipline(ctx, t, upto=None):
+    seen = t.lock_held_at if upto is None else t.lock_held_at[:upto]
+    ctx.prove(all(held for what, held in seen), "Transport.lock-held-at-every-id-allocation-and-registration")
 
 
 def _live(ctx, n):
@@ -149,7 +168,9 @@ def open_channel_case(nlive):
         t._send_user_message = send_user
         with ctx.patches(std_patches(PM, PU, builtins=("int",))):
             ch = t.open_channel("session")
+            n_api = len(t.lock_held_at)
             r2 = t._next_channel()
+        _lock_discipline(ctx, t, n_api)
         cid = ch.chanid if ctx.symbolic else ch.get_id()
         _fresh(ctx, cid, live, "locally-opened-id-not-live")
         ctx.prove((lift(cid) >= 0) & (lift(cid) <= M24), "ids-fit-24-bits")
@@ -158,7 +179,8 @@ def open_channel_case(nlive):
         got = t._channels.get(cid)
         ctx.prove(got is ch, "channel-registered-under-its-id")
     return Case("open_channel-%dlive" % nlive, fn,
-                ["locally-opened-id-not-live", "next-id-differs-from-the-channel-just-opened", "channel-registered-under-its-id"],
+                ["locally-opened-id-not-live", "next-id-differs-from-the-channel-just-opened", "channel-registered-under-its-id",
+                 "Transport.lock-held-at-every-id-allocation-and-registration"],
                 {"counter": "0..2^24-1", "live ids": "%d distinct symbolic 24-bit ids" % nlive})
 
 
@@ -210,7 +232,9 @@ def peer_open_case(nlive):
         m.rewind()
         with ctx.patches(std_patches(PM, PU, builtins=("int",))):
             t._parse_channel_open(m)
+            n_api = len(t.lock_held_at)
             r2 = t._next_channel()
+        _lock_discipline(ctx, t, n_api)
         newc = [c for c in t._channels.values() if c not in t._keep]
         if server and not accept:
             ctx.prove(len(newc) == 0, "refused-open-registers-nothing")
